@@ -51,8 +51,11 @@ template <class T> struct Blk {
     T *base; T *p; size_t n;
     Blk(const T *src, size_t count, bool nul = false) : n(count) {
         size_t tot = count + (nul ? 1 : 0);
-        base = static_cast<T *>(::malloc((tot ? tot : 1) * sizeof(T)));
-        p = tot ? base : base + 1;
+        // the block still ends where the data ends; it starts verif::g_misalign bytes (whole units) past a 16-byte boundary, so that the
+        // two operands of a comparison have every relative and absolute alignment (a function of the case bytes; 0 for half of the cases)
+        const size_t off = (verif::g_misalign & 7) / sizeof(T);
+        base = static_cast<T *>(::malloc((off + (tot ? tot : 1)) * sizeof(T)));
+        p = (tot ? base : base + 1) + off;
         if (count) memcpy(p, src, count * sizeof(T));
         if (nul) p[count] = 0;
     }
